@@ -91,6 +91,17 @@ ExtendOk(vs) ==
   /\ appended' = appended \o vs
   /\ UNCHANGED <<meta, epoch, okMeta, open>>
 
+(* extend* whose input contains a value that fails: the values before it are appended (with their
+   auto-flushes), then the error is returned BEFORE the final flush *)
+ExtendStopsAtBad(pre) ==
+  /\ Step(<<"extend-bad", pre>>)
+  /\ LET w == AppendedAll(Cur, pre) IN
+       /\ sink' = (IF pre = <<>> THEN sink ELSE w.sink)
+       /\ buffer' = w.buffer /\ bufBytes' = w.bufBytes
+       /\ hasHeader' = (IF pre = <<>> THEN hasHeader ELSE TRUE)
+  /\ appended' = appended \o pre
+  /\ UNCHANGED <<meta, epoch, okMeta, open>>
+
 AddUserMetadata(k) ==
   /\ Step(<<"add-meta", k, IF hasHeader THEN "err" ELSE "ok">>)
   /\ IF hasHeader THEN UNCHANGED <<meta, okMeta>>
@@ -120,6 +131,7 @@ Reopen ==
 Next == \/ \E v \in Ids : AppendOk(v)
         \/ AppendRejected \/ AppendEncodeFails \/ Flush
         \/ \E a, b \in Ids : ExtendOk(<<a, b>>)
+        \/ \E a \in Ids : ExtendStopsAtBad(<<a>>) \/ ExtendStopsAtBad(<<>>)
         \/ \E k \in Keys : AddUserMetadata(k)
         \/ Reset \/ Close("into_inner") \/ Close("drop") \/ Reopen
 
